@@ -40,10 +40,11 @@ POW256 = z3.Function("POW256", z3.IntSort(), z3.IntSort())
 
 
 class FloatDiv:
-    """a / b for integers where the binary64 result is exact (power-of-two divisor, |a| < 2**53)."""
+    """a / b for integers. exact=True: the binary64 result is exact (power-of-two divisor, |a| < 2**53). exact=False: a
+    correctly rounded quotient of a >= 0 by a positive constant; only int() of it is modelled, by sound bounds (b_int)."""
 
-    def __init__(self, num, den):
-        self.num, self.den = num, den
+    def __init__(self, num, den, exact=True):
+        self.num, self.den, self.exact = num, den, exact
 
 
 class RegexVal:
@@ -134,9 +135,22 @@ def b_int(I, args, kw):
         a, b = v.num, v.den
         if isinstance(a, int):
             return int(a / b)
-        if I.ctx.entails(Z(a) >= 0):
+        if not I.ctx.entails(Z(a) >= 0):
+            raise OutOfReach("int() of a possibly negative float quotient")
+        if v.exact:
             return simp(Z(a) / b)
-        raise OutOfReach("int() of a possibly negative float quotient")
+        # binary64: a and b are converted (each correctly rounded), the quotient is correctly rounded, int() truncates.
+        # For 0 <= a < 2**52 and 0 < b < 2**52 both conversions are exact and the rounded quotient cannot reach the next
+        # integer (distance >= 1/b > (n+1) * 2**-53), so int(a / b) == a // b. Otherwise only bounds are known: the relative
+        # error of the quotient is below 2**-51, so the result is within 1 + q/2**50 of q = a // b (A-PY: sound bounds, not
+        # the exact rounding - a clause that needs the exact value is then refuted or undischarged, never wrongly proved).
+        q = I.ctx.div(Z(a), b)
+        if b < 2**52 and I.ctx.entails(Z(a) < 2**52):
+            return q
+        r = fresh_int("float_quot")
+        slack = I.ctx.div(q, 2**50)
+        I.ctx.assume(z3.And(r >= Z(q) - 1 - Z(slack), r <= Z(q) + 1 + Z(slack), r >= 0))
+        return r
     if isinstance(v, (bool, int)):
         return int(v)
     if is_int_term(v):
@@ -340,10 +354,11 @@ def b_type(I, args, kw):
 def b_sorted(I, args, kw):
     seq = args[0]
     key = kw.get("key")
-    if kw.get("reverse"):
-        raise OutOfReach("sorted(reverse=True)")
+    rev = kw.get("reverse", False)
+    if not isinstance(rev, bool):
+        raise OutOfReach("sorted(reverse=<symbolic>)")
     if isinstance(seq, SList):
-        return sorted_slist(I, seq, key)
+        return sorted_slist(I, seq, key, rev)
     items = list(I.iter_values(seq))
     keys = [I.call_value(key, [x], {}) if key is not None else x for x in items]
     # stable insertion sort with forking comparisons (lists are short in this code base)
@@ -351,7 +366,7 @@ def b_sorted(I, args, kw):
     for x, k in zip(items, keys):
         pos = len(out)
         for j in range(len(out) - 1, -1, -1):
-            if I.truthy(_lt(I, k, out[j][1])):
+            if I.truthy(_lt(I, out[j][1], k) if rev else _lt(I, k, out[j][1])):
                 pos = j
             else:
                 break
@@ -381,6 +396,13 @@ def b_pow(I, args, kw):
     if isinstance(a, int) and isinstance(b, int) and b >= 0:
         return a**b
     raise OutOfReach("symbolic pow")
+
+
+def b_divmod(I, args, kw):
+    a, b = args
+    if not (I.is_intlike(a) and I.is_intlike(b)) or kw:
+        raise OutOfReach("divmod of non-integers")
+    return (I.int_binop(ast.FloorDiv(), I.as_int(a), I.as_int(b)), I.int_binop(ast.Mod(), I.as_int(a), I.as_int(b)))
 
 
 def b_min(I, args, kw):
@@ -529,7 +551,7 @@ def b_struct_pack(I, args, kw):
 
 def b_math_ceil(I, args, kw):
     (v,) = args
-    if isinstance(v, FloatDiv):
+    if isinstance(v, FloatDiv) and v.exact:
         a, b = v.num, v.den
         if isinstance(a, int):
             return -((-a) // b)
@@ -542,15 +564,18 @@ def b_math_ceil(I, args, kw):
 def true_div(I, a, b):
     a, b = I.as_int(a), I.as_int(b)
     bc = conc_int(b)
-    if bc is None or bc <= 0 or bc & (bc - 1):
-        raise OutOfReach("true division (float) by something other than a positive power of two")
+    if bc is None or bc <= 0:
+        raise OutOfReach("true division (float) by something other than a positive constant")
+    pow2 = not (bc & (bc - 1))
     if isinstance(a, int):
-        if abs(a) >= 2**53:
-            raise OutOfReach("true division of an integer beyond 2**53")
+        if abs(a) >= 2**53 or not pow2:
+            raise OutOfReach("true division of a concrete integer that is not exact in binary64")
         return FloatDiv(a, bc)
-    if not I.ctx.entails(z3.And(Z(a) > -(2**53), Z(a) < 2**53)):
-        raise OutOfReach("true division: operand not provably within the exact float range")
-    return FloatDiv(a, bc)
+    if pow2 and I.ctx.entails(z3.And(Z(a) > -(2**53), Z(a) < 2**53)):
+        return FloatDiv(a, bc)
+    if I.ctx.entails(Z(a) >= 0):
+        return FloatDiv(a, bc, exact=False)  # a rounded quotient: only int() of it is modelled (sound bounds)
+    raise OutOfReach("true division: operand not provably non-negative or within the exact float range")
 
 
 def b_uuid(I, args, kw):
@@ -628,6 +653,7 @@ BUILTINS = {
     "sorted": b_sorted,
     "pow": b_pow,
     "min": b_min,
+    "divmod": b_divmod,
     "max": b_max,
     "int.from_bytes": b_from_bytes,
     "struct.unpack": b_struct_unpack,
@@ -821,15 +847,12 @@ def str_method(I, obj, name, args, kw):
             parts = I.iter_values(args[0])
             if all(isinstance(p, str) for p in parts):
                 return obj.join(parts)
-            term = None
-            from .values import STRCAT
-
+            seq = []
             for i, p in enumerate(parts):
-                t = I.str_term(p)
                 if i and obj:
-                    term = STRCAT(term, I.str_term(obj))
-                term = t if term is None else STRCAT(term, t)
-            return SStr(term) if term is not None else ""
+                    seq.append(obj)
+                seq.append(p)
+            return I.strcat(seq)
         if name == "format":
             return SStr(fresh_str("fmt"))
     if name == "split" and isinstance(obj, SStr) and len(args) == 1 and isinstance(args[0], str) and args[0] == ".":
@@ -878,7 +901,7 @@ def slist_append(I, lst: SList, x):
     return SList(simp(Z(n) + 1), elem)
 
 
-def sorted_slist(I, seq: SList, key):
+def sorted_slist(I, seq: SList, key, reverse=False):
     """Assumed contract of sorted() on a list of arbitrary length n: the result is seq composed with a permutation
     PI of 0..n-1 (PI maps into range; SIG is its right inverse, so every input occurs) and is pairwise
     non-decreasing in the key (lexicographic on tuples). Stability is not needed by any caller and not stated."""
@@ -893,7 +916,7 @@ def sorted_slist(I, seq: SList, key):
     I.ctx.assume(z3.ForAll([a], z3.Implies(z3.And(rng(a), IDXMARK(a)), z3.And(rng(SIG(a)), PI(SIG(a)) == a)), patterns=[IDXMARK(a)]))
     ka = I.call_value(key, [seq.elem(PI(a))], {}) if key is not None else seq.elem(PI(a))
     kb = I.call_value(key, [seq.elem(PI(b))], {}) if key is not None else seq.elem(PI(b))
-    le = I._not(_lt(I, kb, ka))
+    le = I._not(_lt(I, ka, kb) if reverse else _lt(I, kb, ka))  # reverse=True: pairwise non-increasing
     I.ctx.assume(z3.ForAll([a, b], z3.Implies(z3.And(a >= 0, a <= b, b < Z(n)), Z(le)), patterns=[z3.MultiPattern(PI(a), PI(b))]))
     out = SList(n, lambda k: seq.elem(PI(Z(k))))
     out.perm = PI
@@ -941,6 +964,9 @@ def list_method(I, obj, name, args, kw):
         return None
     if name == "insert" and isinstance(args[0], int):
         obj.insert(args[0], args[1])
+        return None
+    if name == "sort" and not args and set(kw) <= {"key", "reverse"}:
+        obj[:] = b_sorted(I, [list(obj)], kw)
         return None
     if name == "pop":
         if not obj:
